@@ -64,7 +64,8 @@ class C20(F.Spec):
             base = reply(b"supla.org")
             for cut in range(len(base) + 1):
                 yield F.Case("trunc%d" % cut, ["resolve supla.org", "connected 0", "reply " + (base[:cut].hex() or "-"),
-                                               "fire timeout", "disc"], {"tags": ["kind:trunc"], "names": [9]})
+                                               "fire timeout", "disc"] + ["fire retry", "fire timeout"] * 6,
+                             {"tags": ["kind:trunc"], "names": [9]})
 
     def mk_reply(self, rng, name):
         k = rng.choice(["good", "good", "cname", "uncompressed", "rcode", "an0", "type", "class", "rdlen", "lenprefix",
